@@ -175,6 +175,12 @@ Definition learn (st : sstate) (conf : N) : option (sstate * N) :=
     let id := N.of_nat (length (s_db st1)) in
     let lits := r_learnt r in
     let c := mkCl (KLearnt (r_why r)) lits in
+    (* debug_assert!(watched_literals[0] != watched_literals[1]) in from_kind_and_initial_watches *)
+    let distinct := match lits, rev lits with
+                    | first :: _ :: _, last :: _ => negb (lit_eqb first last)
+                    | _, _ => true
+                    end in
+    if negb distinct then None else
     let ps2 := match lits, rev lits with
                | first :: _ :: _, last :: _ => start_watching (s_ps st1) id (first, last)
                | _, _ => s_ps st1
@@ -349,3 +355,14 @@ Definition solve (fuel efuel : nat) (a0 : A) (order : option (list task)) : outc
   end.
 
 End Solver.
+
+Arguments mkS {A}. Arguments s_enc {A}. Arguments s_db {A}. Arguments s_ps {A}. Arguments s_asserts {A}.
+Arguments s_units {A}. Arguments s_act {A}. Arguments s_start {A}. Arguments s_log {A}. Arguments s_order {A}.
+Arguments with_ps {A}. Arguments tr_lits {A}. Arguments top_lv {A}. Arguments s_assign {A}. Arguments s_undo_last {A}.
+Arguments s_pop_above {A}. Arguments s_undo_until {A}. Arguments add_clause {A}. Arguments absorb {A}.
+Arguments encode U P {A}. Arguments clause_falsified {A}. Arguments s_propagate {A}. Arguments s_pops {A}.
+Arguments learn U {A}. Arguments prop_learn U {A}. Arguments resolve U {A}. Arguments new_solvables {A}.
+Arguments reject {A}. Arguments run_loop U P {A}. Arguments run_sat U P {A}. Arguments soft_loop U P {A}.
+Arguments chosen {A}. Arguments solve U P {A}.
+Arguments RLevel {A}. Arguments RUnsat {A}. Arguments RPanic {A}. Arguments RFuel {A}.
+Arguments ROk {A}. Arguments RErr {A}. Arguments RunPanic {A}. Arguments RunFuel {A}.
